@@ -375,8 +375,15 @@ pub fn run(world: &World, cfg: &RunCfg, seed: u64, tag: &str) -> Outcome {
 		let mut history: Vec<Response> = vec![];
 		let mut bitmap_ready = false;
 		let mut accepted_corrupt: Vec<String> = vec![];
-		let max_rounds = 400u64;
+		// liveness bound: once faults stop, one segment per delivery slot makes progress; the bound
+		// scales with the number of segments the four trees need at the drawn heights
+		let seg_count = |mmr_size: u64, h: u8| -> u64 {
+			let leaves = grin_core::core::pmmr::n_leaves(mmr_size);
+			(leaves + (1u64 << h) - 1) >> h
+		};
+		let total_segments = seg_count(ah.output_mmr_size, cfg.heights.1) + seg_count(ah.output_mmr_size, cfg.heights.2) + seg_count(ah.kernel_mmr_size, cfg.heights.3) + 4;
 		let fault_rounds = 120u64;
+		let max_rounds = 400u64.max(fault_rounds + 60 + 3 * total_segments / cfg.deliver_per_round.max(8) as u64);
 		let done;
 		loop {
 			rounds += 1;
@@ -434,6 +441,25 @@ pub fn run(world: &World, cfg: &RunCfg, seed: u64, tag: &str) -> Outcome {
 				add(SegmentType::RangeProof, ah.output_mmr_size, lr, cfg.heights.2, &mut wanted);
 				add(SegmentType::Kernel, ah.kernel_mmr_size, lk, cfg.heights.3, &mut wanted);
 			}
+			if std::env::var("VERIF_DEBUG").is_ok() && rounds % 100 == 0 {
+				let t = receiver.chain().txhashset();
+				let t = t.read();
+				eprintln!(
+					"  round {}: local sizes out {} rp {} k {} of ({}, {}, {}); bitmap_ready {} bm_size {}; wanted {:?}; inflight {}; delivered {}",
+					rounds,
+					t.output_mmr_size(),
+					t.rangeproof_mmr_size(),
+					t.kernel_mmr_size(),
+					ah.output_mmr_size,
+					ah.output_mmr_size,
+					ah.kernel_mmr_size,
+					bitmap_ready,
+					d.expected_bitmap_mmr_size(),
+					wanted.iter().take(6).map(|w| ident_key(w)).collect::<Vec<_>>(),
+					inflight.len(),
+					delivered_ok.len()
+				);
+			}
 			for id in wanted {
 				if inflight.iter().any(|r| ident_key(&r.id) == ident_key(&id)) {
 					continue;
@@ -447,8 +473,13 @@ pub fn run(world: &World, cfg: &RunCfg, seed: u64, tag: &str) -> Outcome {
 				}
 			}
 			// network step
-			rng.shuffle(&mut inflight);
-			let k = cfg.deliver_per_round.min(inflight.len());
+			// while faults flow the network reorders freely; afterwards it is benign (in request order,
+			// at least 8 deliveries per round) so that the liveness bound measures the node, not the net
+			if faults_on {
+				rng.shuffle(&mut inflight);
+			}
+			let per_round = if faults_on { cfg.deliver_per_round } else { cfg.deliver_per_round.max(8) };
+			let k = per_round.min(inflight.len());
 			let mut batch: Vec<Response> = inflight.drain(..k).collect();
 			if faults_on {
 				if rng.chance(cfg.dup_pct, 100) && !history.is_empty() {
@@ -599,7 +630,9 @@ pub fn run(world: &World, cfg: &RunCfg, seed: u64, tag: &str) -> Outcome {
 	finish(&mut receiver, None, log, rounds, probes, faults)
 }
 
-pub fn build_world(seed: u64, long: bool) -> Result<World, String> {
+/// `long`: the serving node compacts before it serves. `fat`: 120+ blocks with 11 outputs each, so
+/// that the archive header commits to more than 1024 outputs (a bitmap MMR with several leaves).
+pub fn build_world(seed: u64, long: bool, fat: bool) -> Result<World, String> {
 	let mut r = SimRng::new(seed).fork("cfg");
 	let mut cfg = WorldCfg::draw(&mut r, true);
 	cfg.free_difficulty = false;
@@ -608,10 +641,18 @@ pub fn build_world(seed: u64, long: bool) -> Result<World, String> {
 	cfg.trunk = if long { r.range(84, 88) } else { r.range(45, 58) };
 	cfg.tx_pct = if long { 40 } else { 70 };
 	cfg.max_txs = 2;
+	if fat {
+		cfg.trunk = r.range(121, 128);
+		cfg.fat_outputs = true;
+	}
 	let mut w = World::new(seed, cfg, "pibd-w");
 	let mut tip = 0;
 	for _ in 0..w.cfg.trunk {
 		tip = w.extend(tip, 0)?;
+		if std::env::var("VERIF_DEBUG").is_ok() {
+			let b = &w.blocks[tip];
+			eprintln!("  block h{} outputs {} inputs {} kernels {}", b.height, b.block.outputs().len(), b.block.inputs().len(), b.block.kernels().len());
+		}
 	}
 	if long {
 		// the serving node compacts (horizon = head - 20), then the chain grows on so that the archive
@@ -631,7 +672,8 @@ pub fn case(tier: &str, seed: u64, case: u64) -> CaseResult {
 	let thorough = tier == "thorough";
 	let mut res = CaseResult::new(case, seed);
 	let long = case % 4 == 3;
-	let mut world = match build_world(seed, long) {
+	let fat = case % 8 == 6;
+	let mut world = match build_world(seed, long, fat) {
 		Ok(w) => w,
 		Err(e) => {
 			res.harness_error = Some(format!("pibd world: {}", e));
@@ -641,7 +683,14 @@ pub fn case(tier: &str, seed: u64, case: u64) -> CaseResult {
 	if long {
 		res.probe("server_compacted");
 	}
-	let runs = if thorough { 10 } else { 4 };
+	if fat {
+		let outs = world.builder.chain().txhashset_archive_header().map(|h| h.output_mmr_count()).unwrap_or(0);
+		res.probe_n("fat_world_archive_outputs", outs);
+		if outs > 1024 {
+			res.probe("multi_chunk_bitmap_archive");
+		}
+	}
+	let runs = if thorough { 10 } else if fat { 2 } else { 4 };
 	let rng = SimRng::new(seed);
 	for run_i in 0..runs {
 		let mut rr = rng.fork(&format!("pibd{}", run_i));
@@ -668,7 +717,7 @@ pub fn case(tier: &str, seed: u64, case: u64) -> CaseResult {
 			res.samples.push(json!({"cfg": format!("{:?}", cfg), "log": out.log}));
 		}
 		if let Some(mut v) = out.violation {
-			v.replay = json!({"engine": "pibdsim", "property": "C16", "case_seed": seed, "long": long, "run_seed": rs,
+			v.replay = json!({"engine": "pibdsim", "property": "C16", "case_seed": seed, "long": long, "fat": fat, "run_seed": rs,
 				"cfg": {"heights": [cfg.heights.0, cfg.heights.1, cfg.heights.2, cfg.heights.3], "dup": cfg.dup_pct, "drop": cfg.drop_pct, "corrupt": cfg.corrupt_pct, "chunk": cfg.header_chunk, "zip": cfg.zip_mode, "per_round": cfg.deliver_per_round},
 				"log": out.log});
 			res.violations.push(v);
@@ -694,7 +743,7 @@ pub fn replay(rp: &Value) -> Result<Option<Violation>, String> {
 		zip_mode: c["zip"].as_bool().unwrap_or(false),
 		deliver_per_round: c["per_round"].as_u64().unwrap_or(4) as usize,
 	};
-	let mut world = build_world(seed, long)?;
+	let mut world = build_world(seed, long, rp["fat"].as_bool().unwrap_or(false))?;
 	let out = run(&world, &cfg, rp["run_seed"].as_u64().unwrap_or(0), "pibd-replay");
 	for l in &out.log {
 		println!("  {}", l);
